@@ -1,6 +1,7 @@
 import PrysmVerif.Generated.C05
 import PrysmVerif.Lemmas.C05Fourier
 import PrysmVerif.Lemmas.C05Instance
+import PrysmVerif.Lemmas.C03Exec
 import Mathlib.Tactic.NormNum
 /-!
 # C05 — fixed-sampling results depend on the physical field, not its array embedding
@@ -278,6 +279,20 @@ theorem fpm_allpass_identity_real (m n M : Nat) (hm : m ≤ M) (hn : n ≤ M) (h
   have hM0 : 0 < M := by omega
   exact fpm_allpass_identity eReal eReal_add eReal_zero Complex.ofRealHom Real.sqrt m n M hm hn hm0 hn0
     (eReal_orth M hM0) (Real.mul_self_sqrt (by positivity)) dx efl lam fdx shx shy hdx hf hl hd hband f j i hj hi
+
+/-- the arrays the Lean driver prints for `fs`, `ex` and `fpm` requests hold, at every index inside them, the values of
+`Model.C03.fixedSampling`, `Model.C03.mdft2` and `Model.C05.toFpmAndBack` -/
+theorem driver_tables_are_models {R V : Type} [Field R] [CharZero R] [Field V] [CharZero V]
+    (e : R → V) (ofR : R → V) (sqrt : R → R) (m n M N : Nat) (dx z lam dxo shx shy αy αx sy sx : R) (norm : V)
+    (mask f : Array (Array V)) (k l j i : Nat) (hk : k < M) (hl : l < N) (hj : j < m) (hi : i < n) :
+    Model.C01.rd2 (Model.C03.Exec.fixedTableG e ofR sqrt m n M N dx z lam dxo shx shy f) k l
+      = Model.C03.fixedSampling e ofR sqrt m n M N dx z lam dxo shx shy (Model.C01.rd2 f) k l ∧
+    Model.C01.rd2 (Model.C03.Exec.table2G e m n M N αy αx sy sx norm f) k l
+      = Model.C03.mdft2 e m n M N αy αx sy sx norm (Model.C01.rd2 f) k l ∧
+    Model.C01.rd2 (Model.C03.Exec.fpmTableG e ofR sqrt m n M N dx z lam dxo shx shy mask f) j i
+      = Model.C05.toFpmAndBack e ofR sqrt m n M N dx z lam dxo shx shy (Model.C01.rd2 mask) (Model.C01.rd2 f) j i :=
+  ⟨fixedTableG_eq e ofR sqrt m n M N dx z lam dxo shx shy f k l hk hl, table2G_eq e m n M N αy αx sy sx norm f k l hk hl,
+   fpmTableG_eq e ofR sqrt m n M N dx z lam dxo shx shy mask f j i hj hi⟩
 
 /-! ## non-vacuity (exact rational arithmetic): a band-complete 8-sample mask grid for a 6-sample pupil -/
 example : (1/2 : ℚ) * (25/2) / ((1/2) * 100) = 1 / 8 := by norm_num
